@@ -74,6 +74,14 @@ class Channel(ClientMessageSink):
 
   @property
   def state(self):
+    # a balancer that reads member states without end inside one operation is spinning (a corrupted heap or down-queue):
+    # counted deterministically, so that the case is reported instead of hanging the run
+    run = self.run
+    n = run.state_reads = getattr(run, 'state_reads', 0) + 1
+    if n > 200000:
+      run.state_reads = 0
+      for prop in ('C03', 'C04', 'C05', 'C06'):
+        run.viol(prop, 'balancer-spins', 'the balancer read member states 200 000 times within one operation without returning')
     return self._state
 
   def Open(self):
@@ -227,6 +235,10 @@ class HSSP(ServerSetProvider):
       self.q.put((kind, port))
 
 
+class HandlerBoom(Exception):
+  """Raised by the harness's own response handler (a sink above the balancer that fails while handling a response)."""
+
+
 class Terminal(ClientMessageSink):
   def AsyncProcessRequest(self, *a):
     raise HarnessError('terminal')
@@ -238,6 +250,9 @@ class Terminal(ClientMessageSink):
     hook, context.on_done = getattr(context, 'on_done', None), None
     if hook is not None:
       hook()      # a sink above the balancer that issues the next request from inside the response path (retry, chaining)
+    if getattr(context, 'handler_raises', False):
+      context.handler_raises = False
+      raise HandlerBoom('response handler of request %d failed' % context.id)
 
 
 class Req(object):
@@ -563,6 +578,9 @@ class LBRun(object):
     updating membership) did not happen."""
     if isinstance(e, Violation):
       raise e
+    if isinstance(e, HandlerBoom):
+      self.flags.add('response_handler_raised')      # the caller's own handler failed on the answer: not the balancer's doing
+      return
     import traceback
     where = traceback.extract_tb(e.__traceback__)[-1]
     detail = 'balancer raised %r while %s (%s:%d)' % (e, what, where.filename.rsplit('/', 1)[-1], where.lineno)
@@ -612,9 +630,10 @@ class LBRun(object):
     return self.open_ar.ready()
 
   # --- ops
-  def op_dispatch(self):
+  def op_dispatch(self, handler_raises=False):
     rid = len(self.reqs)
     r = Req(rid, self.step)
+    r.handler_raises = handler_raises
     self.reqs.append(r)
     st = ClientMessageSinkStack()
     st.Push(Terminal(), r)
@@ -633,6 +652,9 @@ class LBRun(object):
       self.lb.AsyncProcessRequest(st, msg, None, {})
     except Violation:
       raise
+    except HandlerBoom:
+      # the member answered on the spot and the caller's own handler failed on that answer: the caller's business
+      self.flags.add('response_handler_raised_during_dispatch')
     except Exception as e:
       self.raised('dispatching a request', e)
     if was_open and self.prop == 'C04':
@@ -711,10 +733,14 @@ class LBRun(object):
       r.on_done = chained
     if r.channel.removed_at is not None:
       self.flags.add('completion_on_removed')
+    if kind == 'reply_raises':
+      r.handler_raises = True
     try:
       r.stack.AsyncProcessResponseMessage(m)
     except Violation:
       raise
+    except HandlerBoom:
+      self.flags.add('response_handler_raised')
     except Exception as e:
       self.raised('completing request %d on %r' % (r.id, r.channel), e)
 
@@ -904,8 +930,9 @@ class LBRun(object):
     for self.step, op in enumerate(self.plan['ops']):
       self.cur_op = op
       k = op[0]
+      self.state_reads = 0
       if k == 'dispatch':
-        self.op_dispatch()
+        self.op_dispatch(handler_raises=(len(op) > 1 and op[1] == 'handler_raises'))
       elif k == 'complete':
         self.op_complete(op[1], op[2])
       elif k == 'dup':
